@@ -272,7 +272,11 @@ func (x *Exec) applyContract(bc *blockCtx, in ssa.Instruction, f *ssa.Function, 
 				}
 				x.registerGhost(k)
 				hk := x.resolveHeapName(ce, k)
+				oldH := x.getHeap(bc.st, hk)
 				bc.st.heaps[hk] = x.b.Fresh(hk+"_after_"+shortFn(name), x.heapSorts[hk])
+				if hk == "G_alloc" {
+					x.axiom(x.b.Cmp(">=", bc.st.heaps[hk], oldH))
+				}
 			}
 		}
 	}
